@@ -198,6 +198,49 @@ def _one_group(args):
     return vios, stats
 
 
+def _sibling_job(args):
+    """A create-only PUT (If-None-Match: *) aimed at a name that is ANOTHER spelling of an existing member's name.
+
+    The two spellings are different resources (different byte strings after percent-decoding): whatever the server answers,
+    the existing member must keep its content and ETag, a 2xx answer must make the new URL serve the upload, and a
+    conditional update of the existing member with its old ETag must still work.
+    """
+    cfg, (label, existing, other) = args
+    vios = {}
+    stats = {"cases": 0}
+
+    def vio(what, summary, detail):
+        sig = "C03|%s|%s" % (cfg.label, what)
+        vios.setdefault(sig, {"summary": summary, "witness": dict(detail, config=cfg.label), "count": 0})["count"] += 1
+
+    for coll, ext, b1, b2, ct in (("cal", ".ics", B.ALL_BODIES["X"], B.ALL_BODIES["Z"], B.CT_ICS), ("ab", ".vcf", B.ALL_BODIES["K"], B.ALL_BODIES["L"], B.CT_VCF)):
+        s = DavSys(cfg)
+        try:
+            s.replay([])
+            u1, u2 = s.url(coll, existing + ext), s.url(coll, other + ext)
+            r0 = s.req("PUT", u1, {"Content-Type": ct}, b1)
+            if dav.effective_status(r0) not in (201, 204):
+                continue
+            g0 = s.req("GET", u1)
+            stats["cases"] += 1
+            r = s.req("PUT", u2, {"Content-Type": ct, "If-None-Match": "*"}, b2)
+            st = dav.effective_status(r)
+            g1 = s.req("GET", u1)
+            case = {"existing": existing + ext, "request": other + ext, "status": st, "collection": coll}
+            if g1.status != 200 or g1.headers.get("etag") != g0.headers.get("etag") or g1.body != g0.body:
+                vio("create-only-put-to-another-spelling-changed-the-existing-member:%s" % label, "PUT %r with If-None-Match: * answered %s and the existing member %r now answers %s with ETag %s (was %s)" % (other + ext, st, existing + ext, g1.status, g1.headers.get("etag"), g0.headers.get("etag")), case)
+            if st in (200, 201, 204):
+                g2 = s.req("GET", u2)
+                if g2.status != 200:
+                    vio("create-only-put-acknowledged-but-url-missing:%s" % label, "PUT %r answered %s but GET of the same URL answers %s" % (other + ext, st, g2.status), case)
+        finally:
+            s.close()
+    return vios, stats
+
+
+SPELLINGS = [("nfc-vs-nfd", "caf\u00e9", "cafe\u0301"), ("nfd-vs-nfc", "cafe\u0301", "caf\u00e9"), ("case", "meeting", "Meeting"), ("trailing-dot", "note", "note."), ("fullwidth", "a1", "a\uff11")]
+
+
 def run(tier, workers=None):
     rep = Reporter("C03", tier)
     storesys.compute_stored_forms(["X", "X2", "Z"])
@@ -256,6 +299,13 @@ def run(tier, workers=None):
                 rep.violation("C03|store:%s|differs-from-unconditional:%s" % (k, op[0]), "store op with matching etag argument behaves differently from the same op without it", {"backend": k, "history": hist, "op": op})
         finally:
             s2.close()
+    sjobs = [(c, sp) for c in cfgs[:2] for sp in SPELLINGS]
+    with mp.get_context("fork").Pool(min(len(sjobs), workers or 16)) as pool:
+        sres = pool.map(_sibling_job, sjobs, chunksize=1)
+    sibling_cases = 0
+    for svios, sstats in sres:
+        rep.merge(svios)
+        sibling_cases += sstats["cases"]
     # E5: a conditional request whose condition is checked, after which another client's write is handled at one of the
     # request's suspension points (body still arriving, member being loaded/updated in a thread): the outcome must be
     # what one of the two orders gives - a condition that held at the head of the request does not license the write
@@ -272,6 +322,7 @@ def run(tier, workers=None):
     if placements == 0:
         rep.harness_error("overlap phase: no suspension point was found in any conditional request")
     cov = {
+        "sibling_spellings": {"pairs": [x[0] for x in SPELLINGS], "cases": sibling_cases},
         "overlap_phase": {"pairs": [list(j[:2]) for j in ojobs], "placements_of_a_write_inside_a_conditional_request": placements},
         "states": res.states + len(jobs),
         "transitions": res.transitions + tot["cases"],
@@ -291,5 +342,6 @@ def run(tier, workers=None):
         "RFC 7232 strong comparison; W/ weak validators are not generated (xandikos never emits them)",
         "unquoted values: only 'no effect unless identical to the header-less request' is required, the status is not defined by the property",
         "DELETE of an absent resource with If-Match may answer 404 or 412",
+        "sibling spellings: create-only PUTs to names that differ from an existing member only by Unicode normalisation form, letter case, a trailing dot or a full-width digit (different resources)",
         "overlap phase (E5): single-process server; suspension points = reading the request body and every to_thread call; the other request runs to completion there; allowed outcomes = the two sequential orders",
     ])
